@@ -96,6 +96,7 @@ FEATURES = [
     ("class_array_const_list", "class LL{S} { const LIST = [3, 1, 2]; const EMPTY = []; } echo json_encode(LL{S}::LIST), count(LL{S}::EMPTY), \"\\n\";"),
     ("interface_array_const_keyed", "interface HC{S} { const ORDER = ['y' => 1, 'b' => 2, 'k' => 3]; } class HI{S} implements HC{S} {} echo implode(',', array_keys(HC{S}::ORDER)), implode(',', array_keys(HI{S}::ORDER)), \"\\n\";"),
     ("reflection_constructor", "class NoCtor{S} {} class WithCtor{S} { public $a; function __construct($a = 1, $b = 2) { $this->a = $a; } } class Inherits{S} extends WithCtor{S} {} class Promoted{S} { function __construct(public $x = 0, protected int $y = 3) {} } abstract class AbsC{S} { public $q; function __construct($q = 9) { $this->q = $q; } } class FromAbs{S} extends AbsC{S} {}\nforeach (['NoCtor{S}', 'WithCtor{S}', 'Inherits{S}', 'Promoted{S}', 'FromAbs{S}'] as $c{S}) { $rc{S} = new \\ReflectionClass($c{S}); $k{S} = $rc{S}->getConstructor(); if ($k{S} === null) { echo $c{S}, \": null\\n\"; continue; } echo $c{S}, ': ', $k{S}->getName(), ' ', count($k{S}->getParameters()), \"\\n\"; }\necho (new \\ReflectionClass('Inherits{S}'))->newInstance(7)->a, (new \\ReflectionClass('FromAbs{S}'))->newInstanceArgs([8])->q, \"\\n\";"),
+    ("type_forms", "interface TI{S} { function m(int $a): ?string; }\nclass TC{S} implements TI{S} { public int $pi = 1; public ?string $ps = null; public int|string $pu = 2; public array $pa = []; protected float $pf = 1.5; private bool $pb = true; public ?TC{S} $self = null; public static int $cnt = 0; public static ?array $reg = null;\n function m(int $a): ?string { return (string)$a; }\n function all(int $a, float $b, string $c, bool $d, array $e, ?int $f, int|string|null $g, callable $h, object $i, mixed $j, TC{S} $k, self $l, iterable $m, \\Closure $n): void {}\n static function make(): static { self::$cnt++; return new static(); }\n function me(): self { return $this; }\n function nothing(): null { return null; }\n function nf(): false|int { return 1; } }\nfunction tf{S}(int $a = 1, string ...$rest): array { return [$a, $rest]; }\n$cl{S} = function(?array $x, int|float $y = 2): int|float { return $y; };\n$af{S} = fn(string $s): string => $s;\necho json_encode(tf{S}(2, 'a', 'b')), $cl{S}(null), $af{S}('z'), (new TC{S}())->m(5), TC{S}::make()->me()->pi, TC{S}::$cnt, json_encode(TC{S}::$reg), \"\\n\";\ntry { (new TC{S}())->m('x'); } catch (\\Throwable $e{S}) { echo 'type error caught', \"\\n\"; }\ntry { $o{S} = new TC{S}(); $o{S}->pi = 'notint'; echo 'stored'; } catch (\\Throwable $e{S}) { echo 'prop type error', \"\\n\"; }"),
     ("list_assign", "[$la{S}, $lb{S}] = [1, 2]; echo $la{S}, $lb{S}, \"\\n\";"),
     ("incr_ops", "$u{S} = 1; $u{S}++; ++$u{S}; $u{S} += 3; $u{S} -= 1; $u{S} *= 2; $w{S} = 'a'; $w{S} .= 'b'; echo $u{S}, $w{S}, \"\\n\";"),
     ("uncaught_throw", "echo \"before\\n\"; throw new Exception('uncaught{S}'); echo 'after';"),
@@ -939,6 +940,26 @@ def main(ck):
     never = sorted("%s.%s" % (t["name"], f["name"]) for t in table if t["name"] in seen_types
                    for f in (t.get("fields") or []) if not f["node"] and f["exported"] and not f["pp"]
                    and "%s.%s" % (t["name"], f["name"]) not in exercised)
+    # which implementations of data.Types did the compared programs carry (declared types are dumped as
+    # "<Go type>:<text>": a kind genTypes turns into another kind shows as a structural difference - but only for kinds
+    # that occur)
+    kinds = set()
+
+    def walk_kinds(v):
+        if isinstance(v, dict):
+            for key in ("types", "var"):
+                if key in v and isinstance(v[key], str):
+                    for m in re.finditer(r"(data\.\w+):", v[key]):
+                        kinds.add(m.group(1))
+            for x in v.values():
+                walk_kinds(x)
+        elif isinstance(v, list):
+            for x in v:
+                walk_kinds(x)
+    for sres in structs:
+        walk_kinds(sres.get("parsed"))
+    ck.cov["declared_type_kinds_seen_in_compared_programs"] = sorted(kinds)
+    ck.cov["declared_type_kinds_never_seen (genTypes untested for them)"] = sorted(t["name"] for t in outs[0]["table"] if t.get("is_types") and t["name"] not in kinds)
     ck.cov["special_handler_types_seen_in_programs"] = "%d of %d" % (len(seen_types), len(special_types))
     ck.cov["special_handler_types_never_seen"] = sorted(special_types - seen_types)
     ck.cov["special_handler_fields_never_non_default (structural comparison vacuous there)"] = never
